@@ -114,6 +114,12 @@ mutant("c20_counter_not_carried", "C20", ["C20"], "src/gemseo/core/serializable.
        "synchronized counters restart from zero after unpickling")
 
 
+EQUIVALENT = {
+    "c04_strict_to_nonstrict": "ties resolved to the last instead of the first best point: the reported point is still a best feasible point, the statement is not violated",
+    "c12_pending_cleared_never": "points stay pending and are appended again at each export; the append path skips outputs already on file, so the file content is unchanged",
+}
+
+
 def main():
     OUT.mkdir(exist_ok=True)
     for f in OUT.glob("*"):
@@ -130,7 +136,10 @@ def main():
         new_text = text.replace(m["old"], m["new"], m["count"])
         diff = "".join(difflib.unified_diff(text.splitlines(True), new_text.splitlines(True), "a/" + m["file"], "b/" + m["file"]))
         (OUT / f"{m['name']}.patch").write_text(diff)
-        (OUT / f"{m['name']}.json").write_text(json.dumps({"property": m["prop"], "checks": m["checks"], "note": m["note"], "file": m["file"]}, indent=1))
+        meta = {"property": m["prop"], "checks": m["checks"], "note": m["note"], "file": m["file"]}
+        if m["name"] in EQUIVALENT:
+            meta["equivalent"] = EQUIVALENT[m["name"]]
+        (OUT / f"{m['name']}.json").write_text(json.dumps(meta, indent=1))
         made += 1
     print(f"{made} mutants written to {OUT}")
 
